@@ -323,11 +323,16 @@ func (s *Store) Dump() ([]Row, error) {
 			for ok := c.First(); ok; ok = c.Next() {
 				n++
 				k := append([]byte{}, c.Key()...)
-				if nb := b.Bucket(k); nb != nil {
-					subs = append(subs, sub{k})
-					continue
+				v := c.Value()
+				// a nested bucket shows up with a nil value; only then is the (costlier)
+				// bucket lookup needed to tell it from a key with an empty value
+				if len(v) == 0 {
+					if nb := b.Bucket(k); nb != nil {
+						subs = append(subs, sub{k})
+						continue
+					}
 				}
-				rows = append(rows, Row{Path: path, Key: hex.EncodeToString(k), Value: hex.EncodeToString(c.Value())})
+				rows = append(rows, Row{Path: path, Key: hex.EncodeToString(k), Value: hex.EncodeToString(v)})
 			}
 			if n == 0 {
 				rows = append(rows, Row{Path: path, Key: "<bucket>"})
